@@ -92,7 +92,7 @@ Print Assumptions C02_watch_no_crash.
    service / manual deliveries the loop never reaches [Crashed] and IS C01's loop.  The only
    hypothesis: no route ever holds more than 3*10^9 targets (C04's bound). *)
 Theorem C02_watch_never_crashes : forall pweight canon glob_ok order, perm_order order ->
-  (forall text ds, parse pweight text = Ok ds -> Forall route_ok (reached canon glob_ok [] ds)) ->
+  (forall text ds, scan_parse pweight text = Ok ds -> Forall route_ok (reached canon glob_ok [] ds)) ->
   forall h w,
     wrun (full_build pweight canon glob_ok (ring_faithful order)) (Running w) h
     = Running (Watch.run btable (build_opt (full_build pweight canon glob_ok (ring_faithful order))) w h).
@@ -143,10 +143,12 @@ Print Assumptions C02_custom_installs.
 
 (* ============ (3) no configuration text can crash the process ============ *)
 
-(* The composed build is conservative over C05's NewTable: unless it crashes it returns C05's
+(* On C05's domain (every line fits bufio.Scanner's 64 KiB token buffer) the composed build is
+   conservative over C05's NewTable: unless it crashes it returns C05's
    table (with the rings attached) or C05's error - for every text and whatever ParseFloat,
    url.Parse, glob.Compile and the unstable sort answer. *)
 Theorem C02_full_build_refines_new_table : forall pweight canon glob_ok order text,
+  has_long_line text = false ->
   match full_build pweight canon glob_ok (ring_faithful order) text with
   | Ok bt => new_table pweight canon glob_ok text = Ok (forget bt)
   | Err k => new_table pweight canon glob_ok text = Err k
@@ -235,7 +237,30 @@ Theorem C02_watch_crash_refuted_unrepaired :
 Proof. exact watch_crash_refuted_unrepaired. Qed.
 Print Assumptions C02_watch_crash_refuted_unrepaired.
 
-(* NEVER CRASHES, for the code as it is.  For EVERY text - any bytes, any weights of any bit pattern
+(* Beyond C05's domain: a text with a line of 65536 bytes or more (bufio.MaxScanTokenSize; 65535
+   bytes + newline still fit) is NEVER turned into a table, a shorter one included: NewTable returns
+   an error (since /repo 5dd66bf), so the update loop keeps the last good table
+   (C02_watch_keeps_last_good). *)
+Theorem C02_long_line_rejected : forall pweight canon glob_ok order text,
+  has_long_line text = true -> exists k, full_build pweight canon glob_ok (ring_faithful order) text = Err k.
+Proof. exact long_line_rejected. Qed.
+Print Assumptions C02_long_line_rejected.
+
+(* F-C02-9 (fixed by 5dd66bf): Parse used to ignore scanner.Err(); the same text gave the table of
+   the lines BEFORE the long one, without an error.  Now Err, at exactly 65536 bytes. *)
+Theorem C02_long_line_truncates_unrepaired :
+  match full_build_scan_unrepaired pw_wit canon_wit glob_wit (ring_faithful stable_order) long_text with
+  | Ok bt => map fst bt = [bs "a.test"]
+  | _ => False
+  end
+  /\ fb_wit long_text = Err e_line_too_long
+  /\ has_long_line (xs 65535 ++ nl ++ bs "x") = false
+  /\ has_long_line (bs "x" ++ nl ++ xs 65536) = true.
+Proof. exact long_line_truncates_unrepaired. Qed.
+Print Assumptions C02_long_line_truncates_unrepaired.
+
+(* NEVER CRASHES, for the code as it is.  For EVERY text - any bytes, lines of any length (the
+   scanner limit is part of [full_build]), any weights of any bit pattern
    (Inf, subnormal, huge, negative) - and whatever ParseFloat, url.Parse, glob.Compile and the
    unstable sort answer: the composed NewTable returns a table or an error, never a panic and never an
    endless loop; and on every table it returns EVERY lookup returns (any host, path, TLS flag,
@@ -250,14 +275,13 @@ Print Assumptions C02_watch_crash_refuted_unrepaired.
      - [Hstrip], for glob-enabled lookups: a host pattern glob.Compile accepts is still accepted
        without its literal ":80" / ":443" suffix (addRoute compiles the key as written, matchingHosts
        the normalised key); the harness checks this on every host key it generates.
-   Modelling assumptions are those of the imported models (C05: ASCII text, lines below the
-   scanner's token limit, `route weight` divides on C05's exact weights: w/n is exactly float64's
+   Modelling assumptions are those of the imported models (C05: ASCII text, `route weight` divides on C05's exact weights: w/n is exactly float64's
    quotient when w and w/n are zero or normal or n = 1 - the no-panic conclusion does not depend on
    which float64 the division yields, since C04's theorem covers every bit pattern, NaN excepted:
    a NaN FixedWeight is not expressible in C05's weights; linux/amd64 int(float64)). *)
 Theorem C02_new_table_total :
   forall pweight canon glob_ok order text, perm_order order ->
-  (forall ds, parse pweight text = Ok ds -> Forall route_ok (reached canon glob_ok [] ds)) ->
+  (forall ds, scan_parse pweight text = Ok ds -> Forall route_ok (reached canon glob_ok [] ds)) ->
   full_build pweight canon glob_ok (ring_faithful order) text <> Panic
   /\ forall bt, full_build pweight canon glob_ok (ring_faithful order) text = Ok bt ->
      forall hostglob_ok host tls uri m globoff total,
@@ -272,6 +296,14 @@ Theorem C02_custom_build_total : forall canon glob_ok order ds t, perm_order ord
   custom_from canon glob_ok (ring_faithful order) t ds <> Panic.
 Proof. exact custom_build_total. Qed.
 Print Assumptions C02_custom_build_total.
+
+(* NewTableCustom as a whole, the nil definition list of a poll body `null` included (an error since
+   /repo 618785e): never a panic *)
+Theorem C02_custom_build_ptr_total : forall canon glob_ok order (o : option (list (option def))), perm_order order ->
+  (forall ds, o = Some ds -> Forall route_ok (reached canon glob_ok [] (known_defs ds))) ->
+  custom_build_ptr canon glob_ok (ring_faithful order) o <> Panic.
+Proof. exact custom_build_ptr_total. Qed.
+Print Assumptions C02_custom_build_ptr_total.
 
 (* the lookup code itself is unchanged: on a table that does contain an invalid host key (none that
    NewTable returns any more) every glob-enabled lookup crashes, whatever is asked *)
@@ -322,11 +354,16 @@ Theorem C02_custom_carry_over_refuted :
 Proof. exact custom_carry_over_refuted. Qed.
 Print Assumptions C02_custom_carry_over_refuted.
 
-(* F-C02-10 (open): a poll body that is the JSON value null reaches NewTableCustom(nil), which
-   dereferences it: the polling goroutine panics (no recover), whatever table is active *)
-Theorem C02_custom_null_body_crashes : forall cbuild cell, custom_poll_body cbuild cell None = None.
-Proof. exact custom_null_body_crashes. Qed.
-Print Assumptions C02_custom_null_body_crashes.
+(* F-C02-10 (fixed by /repo 618785e).  Before: a poll body that is the JSON value null reached
+   NewTableCustom(nil), which dereferenced it: the polling goroutine panicked (no recover), whatever
+   table was active.  Now: an error, the table stays. *)
+Theorem C02_custom_null_body_crashes_unrepaired : forall cbuild cell,
+  custom_poll_body_unrepaired cbuild cell None = None.
+Proof. exact custom_null_body_crashes_unrepaired. Qed.
+Print Assumptions C02_custom_null_body_crashes_unrepaired.
+Theorem C02_custom_null_body_rejected : forall cbuild cell, custom_poll_body cbuild cell None = Some cell.
+Proof. exact custom_null_body_rejected. Qed.
+Print Assumptions C02_custom_null_body_rejected.
 
 Theorem C02_custom_errors :
   custom_build canon_wit glob_wit (ring_faithful stable_order) [None] = Err e_invalid_cmd
@@ -338,7 +375,7 @@ Proof. exact custom_errors. Qed.
 Print Assumptions C02_custom_errors.
 
 Theorem C02_total_nonvacuous :
-  (forall ds, parse pw_wit domain_text = Ok ds -> Forall route_ok (reached canon_wit glob_wit [] ds))
+  (forall ds, scan_parse pw_wit domain_text = Ok ds -> Forall route_ok (reached canon_wit glob_wit [] ds))
   /\ fb_wit domain_text <> Panic.
 Proof. exact total_nonvacuous. Qed.
 Print Assumptions C02_total_nonvacuous.
